@@ -28,6 +28,22 @@ type PItem struct {
 	Vec  []float32         `json:"vec,omitempty"`
 	Meta map[string]string `json:"meta,omitempty"`
 	Lvl  int               `json:"lvl,omitempty"`
+	Many [2]int            `json:"many,omitempty"` // {series, count}: that many generated keys on top of Meta (kept out of the case file)
+}
+
+// meta is the item's full metadata: Meta plus the generated key series.
+func (it PItem) meta() map[string]string {
+	if it.Many[1] == 0 {
+		return it.Meta
+	}
+	m := make(map[string]string, len(it.Meta)+it.Many[1])
+	for k, v := range it.Meta {
+		m[k] = v
+	}
+	for i := 0; i < it.Many[1]; i++ {
+		m[fmt.Sprintf("s%d_%05d", it.Many[0], i)] = ""
+	}
+	return m
 }
 
 type PEntry struct {
@@ -49,12 +65,12 @@ func notifIdOf(i int) uuid.UUID { return idOf(1000000 + i) }
 func (e PEntry) marshal(i int) []byte {
 	ch := &pb.PartitionChange{Type: pb.PartitionChangeType(e.T), NotificationId: notifIdOf(i).Bytes()}
 	item := func(it PItem) *pb.BatchItem {
-		return &pb.BatchItem{Id: idOf(it.Id).Bytes(), Value: append([]float32(nil), it.Vec...), Metadata: map[string]string(copyMeta(it.Meta)), Level: int32(it.Lvl)}
+		return &pb.BatchItem{Id: idOf(it.Id).Bytes(), Value: append([]float32(nil), it.Vec...), Metadata: map[string]string(copyMeta(it.meta())), Level: int32(it.Lvl)}
 	}
 	if e.T <= 2 {
 		ch.Id = idOf(e.It.Id).Bytes()
 		ch.Value = append([]float32(nil), e.It.Vec...)
-		ch.Metadata = map[string]string(copyMeta(e.It.Meta))
+		ch.Metadata = map[string]string(copyMeta(e.It.meta()))
 		ch.Level = int32(e.It.Lvl)
 	} else {
 		for _, it := range e.Items {
@@ -130,6 +146,22 @@ func genPartCase(r *simrt.Rand, maxEntries int) PartCase {
 		}
 		c.Entries = append(c.Entries, e)
 	}
+	if r.Bool(0.012) {
+		// The entry-count limit is a property of the MERGED metadata: an item with many keys is
+		// updated with many other keys, each map valid on its own. Over the limit the update is
+		// refused and the item stays as it was; exactly at the limit it goes through.
+		id := r.Intn(nIds)
+		second := []int{30000, 25535, 25536}[r.Intn(3)]
+		base := PItem{Id: id, Vec: genVec(r, c.Dim, grid, cos), Many: [2]int{1, 40000}}
+		c.Entries = append(c.Entries, PEntry{T: 2, It: PItem{Id: id}}, PEntry{T: 0, It: base})
+		upd := PItem{Id: id, Vec: genVec(r, c.Dim, grid, cos), Many: [2]int{2, second}}
+		if r.Bool(0.5) {
+			c.Entries = append(c.Entries, PEntry{T: 1, It: upd})
+		} else {
+			c.Entries = append(c.Entries, PEntry{T: 4, Items: []PItem{upd}})
+		}
+		c.Entries = append(c.Entries, PEntry{T: 0, It: PItem{Id: id, Vec: genVec(r, c.Dim, grid, cos)}})
+	}
 	return c
 }
 
@@ -149,13 +181,13 @@ const (
 )
 
 func (m *pModel) ins(it PItem) string {
-	if metaOverLimit(it.Meta) {
+	if metaOverLimit(it.meta()) {
 		return oTooLarge
 	}
 	if _, ok := m.items[it.Id]; ok {
 		return oExists
 	}
-	m.items[it.Id] = &mItem{vec: it.Vec, meta: map[string]string(copyMeta(it.Meta)), lvl: it.Lvl}
+	m.items[it.Id] = &mItem{vec: it.Vec, meta: map[string]string(copyMeta(it.meta())), lvl: it.Lvl}
 	return oOK
 }
 
@@ -168,7 +200,7 @@ func (m *pModel) upd(it PItem) string {
 	for k, v := range old.meta {
 		md[k] = v
 	}
-	for k, v := range it.Meta {
+	for k, v := range it.meta() {
 		md[k] = v
 	}
 	if metaOverLimit(md) {
